@@ -41,7 +41,7 @@ ASSUMPTIONS = [
 ]
 PROBES = ["H_runs", "H_ops", "H_probes_after_change", "H_cli_ops", "H_bulk_ops", "H_show_save_ops", "H_slot_reuse", "H_repeat_same_op", "H_alias_family_ops", "H_bulk_position_probes", "H_flood_ops", "H_heavy_distinct_fix_ops", "H_fed_back_result_ops", "H_host_warning_filter_windows", "H_ops_under_warnings_as_errors", "H_clock_jump_windows", "T_runs_under_jumping_clock",
           "T_runs", "T_threads", "T_ops", "T_steps", "T_switches", "T_hot_line_hits", "T_switch_in_optimisation", "T_mode_different",
-          "T_mode_same", "T_mode_shared_object", "T_runs_with_switch_inside_call", "T_shared_object_first_touch_in_threads", "P_runs", "P_ops", "P_interpreters"]
+          "T_mode_same", "T_mode_shared_object", "T_runs_with_switch_inside_call", "T_shared_object_first_touch_in_threads", "P_runs", "P_ops", "P_interpreters", "P_interpreters_sharing_home_and_tmp", "H_cli_ops_over_an_already_processed_directory"]
 
 
 # ---------------------------------------------------------------------------
@@ -119,7 +119,16 @@ def _cli_op(rng):
         if rng.random() < 0.2:
             txt = "\ufeff" + txt  # saved by an editor that writes a byte-order mark
         tree[name] = txt
-    return {"op": "cli", "tree": tree, "settings": settings, "order_key": rng.randrange(1 << 20)}
+    op = {"op": "cli", "tree": tree, "settings": settings, "order_key": rng.randrange(1 << 20)}
+    if rng.random() < 0.25:
+        # the directory was already processed once, with other settings (its outputs and report are still there)
+        ps = {"mode": rng.choice((0, 1, 2, None))}
+        if rng.random() < 0.5:
+            ps["premium"] = True
+        if rng.random() < 0.3:
+            ps["default_bg"] = rng.choice(("black", "#222", "navy", "white"))
+        op["prior_settings"] = ps
+    return op
 
 
 def generate(rseed, tier, idx):
@@ -231,6 +240,15 @@ def generate(rseed, tier, idx):
             md = g.choice((1, 1, None, 2))
             for k, (bgc, at) in enumerate(zip(bgs, pos)):
                 ops.insert(at + k, {"op": "make", "t": tsp, "b": enc("#%02x%02x%02x" % tuple(bgc)), "large": False, "mode": md, "vr": False, "alias": True})
+        if g.random() < 0.3:
+            # the same two colours asked again as the OTHER kind of text (large flag flipped) and the other strictness: whatever
+            # is remembered per pair must be remembered per size and target too
+            mk = [i for i, o in enumerate(ops) if o["op"] == "make" and isinstance(o.get("large"), bool)]
+            if mk:
+                src = ops[g.choice(mk)]
+                twin = {"op": "make", "t": src["t"], "b": src["b"], "large": not src["large"], "mode": src.get("mode"),
+                        "vr": not src.get("vr", False), "alias": True}
+                ops.insert(g.randrange(len(ops) + 1), twin)
         if g.random() < 0.25:
             # "feed the result back": the text of a later call is the colour an earlier make call returned
             mk = [i for i, o in enumerate(ops) if o["op"] == "make"]
@@ -310,7 +328,12 @@ def generate(rseed, tier, idx):
             tr["shared_untouched"] = g.random() < 0.6
         return tr
     ops = [_pure_op(g) for _ in range(8)]
-    return {"prop": ID, "engine": "P", "ops": ops, "hashseeds": [g.randrange(1, 1 << 31), 0]}
+    mk = [o for o in ops if o["op"] == "make" and isinstance(o.get("large"), bool)]
+    if mk and g.random() < 0.6:
+        src = g.choice(mk)
+        ops.insert(g.randrange(len(ops) + 1), {"op": "make", "t": src["t"], "b": src["b"], "large": not src["large"], "mode": src.get("mode"),
+                                                 "vr": not src.get("vr", False)})
+    return {"prop": ID, "engine": "P", "ops": ops, "hashseeds": [g.randrange(1, 1 << 31), 0], "shared_machine": True}
 
 
 # ---------------------------------------------------------------------------
@@ -327,6 +350,13 @@ def run_cli_op(op):
             os.makedirs(os.path.dirname(p), exist_ok=True)
             with open(p, "wb") as f:
                 f.write(op["tree"][name].encode("utf-8"))
+        if op.get("prior_settings"):
+            cli_run.cli_exec(root, "tree", op["prior_settings"], cwd_rel="cwd", order_key=op.get("order_key"))
+            # (the earlier run's REPORT is removed: a run that changes nothing writes no report and rightly leaves an old one alone)
+            try:
+                os.unlink(os.path.join(root, "cwd", "cm_colors_report.html"))
+            except OSError:
+                pass
         res = cli_run.cli_exec(root, "tree", op["settings"], cwd_rel="cwd", order_key=op.get("order_key"))
         snap = seams.snapshot(root)
         files = {k: (v[1].decode("utf-8", "replace") if v[0] == "f" else list(v)) for k, v in snap.items()
@@ -405,8 +435,11 @@ def _exec_H(trace):
             continue
         if sop["op"] == "newpair":
             model.slot_spec[sop["slot"]] = {"t": sop["t"], "b": sop["b"], "large": sop.get("large", False)}
-        eq = sop if sop["op"] == "cli" else apiops.fresh_equivalent(sop, model)
+        # (a directory that was processed before must give what a never-processed copy of it gives)
+        eq = {k: v for k, v in sop.items() if k != "prior_settings"} if sop["op"] == "cli" else apiops.fresh_equivalent(sop, model)
         expect.append((eq, _oracle_any(eq, cache)))
+        if sop.get("prior_settings"):
+            bump("H_cli_ops_over_an_already_processed_directory")
         if sop["op"] == "make" and "ret" in expect[-1][1]:
             got = dec(expect[-1][1]["ret"])
             if isinstance(got, tuple) and len(got) == 2 and got[0] is not None:
@@ -623,6 +656,11 @@ _P_CODE = ("import sys, json\nfrom verif_sim import apiops, base\nops = json.loa
            "out = []\nfor op in ops:\n    out.append(apiops._oracle_run(op))\nprint(json.dumps(out))\nbase.rm_tree(base.sandbox_base())\n")
 
 
+_P_CODE_SHARED = ("import sys, json\nfrom verif_sim import apiops, base\nd = json.loads(sys.stdin.read())\n"
+                  "out = []\nwith apiops.Effects(d['root']):\n    for op in d['ops']:\n        r = apiops.run_op(op, apiops.Ctx())\n        r.pop('mutated', None)\n        out.append(r)\n"
+                  "print(json.dumps(out))\nbase.rm_tree(base.sandbox_base())\n")
+
+
 def _exec_P(trace):
     events, vio, stats = [], [], {}
     ops = trace["ops"]
@@ -644,6 +682,30 @@ def _exec_P(trace):
             if a2 != b2:
                 vio.append({"kind": "process-dependence", "detail": {"op": ops[i], "hashseed": hs, "this_process": _brief_res(a2), "fresh_interpreter": _brief_res(b2)},
                             "features": {"kind": "process-dependence"}})
+    if trace.get("shared_machine"):
+        # one user's machine: two interpreters, one after the other, with the SAME home and temp directories; the second one
+        # meets whatever the first one left on disk (and asks in the opposite order)
+        mroot = base.new_sandbox("c15mach")
+        try:
+            for k, order in enumerate((list(range(len(ops))), list(reversed(range(len(ops)))))):
+                env = dict(os.environ, PYTHONHASHSEED=str(trace["hashseeds"][0] + k))
+                p = subprocess.run([sys.executable, "-c", _P_CODE_SHARED], input=json.dumps({"root": mroot, "ops": [ops[i] for i in order]}), env=env,
+                                   capture_output=True, text=True, timeout=300, cwd=base.VERIF_DIR)
+                if p.returncode != 0:
+                    raise base.HarnessError("fresh interpreter (shared machine) failed: " + p.stderr[-800:])
+                stats["P_interpreters_sharing_home_and_tmp"] = stats.get("P_interpreters_sharing_home_and_tmp", 0) + 1
+                there = json.loads(p.stdout.strip().splitlines()[-1])
+                for i, b in zip(order, there):
+                    a2 = {kk: here[i].get(kk) for kk in ("ret", "exc") if kk in here[i]}
+                    b2 = {kk: b.get(kk) for kk in ("ret", "exc") if kk in b}
+                    if a2 != b2:
+                        vio.append({"kind": "process-dependence", "detail": {"op": ops[i], "interpreter": k, "pristine": _brief_res(a2),
+                                                                             "interpreter_on_a_used_machine": _brief_res(b2)},
+                                    "features": {"kind": "process-dependence"}})
+            left = sorted(kk for kk in seams.snapshot(mroot) if kk.split("/")[0] in ("home", "tmp") and kk not in ("home", "tmp"))
+            events.append(("left-on-machine", left))
+        finally:
+            base.rm_tree(mroot)
     events.append([(o, h.get("ret"), h.get("exc")) for o, h in zip(ops, here)])
     nontrivial = any(_colour_changed(o, h) for o, h in zip(ops, here))
     return {"violations": vio, "digest": base.digest(events), "nontrivial": nontrivial, "stats": stats, "steps": len(ops)}
